@@ -305,12 +305,12 @@ func c18DataPlacement(r *Run) {
 			okDst := dst.base == ssa.Value(buf) && dst.low.Equal(linConst(0))
 			r.Check(okDst, "data-placement", "FileEnt.Read: the bytes go to the start of the caller's buffer", c.Pos(), "the copy does not fill p from its start")
 			k := src.high.Sub(src.low)
-			r.Check(dst.high.Sub(dst.low).Equal(k), "data-placement", "FileEnt.Read: source and destination ranges have the same length", c.Pos(),
+			r.Check(fa.EqualJointPhi(dst.high.Sub(dst.low), k, 2), "data-placement", "FileEnt.Read: source and destination ranges have the same length", c.Pos(),
 				"the copy's source and destination differ in length: "+k.String()+" vs "+dst.high.Sub(dst.low).String())
 			for _, ret := range returnsOf(rd) {
 				if len(ret.Results) == 2 && isNilConst(ret.Results[1]) {
 					got := fa.Lin(ret.Results[0])
-					r.Check(got.Equal(k), "data-placement", "FileEnt.Read: the count returned is the number of bytes copied", ret.Pos(),
+					r.Check(fa.EqualJointPhi(got, k, 2), "data-placement", "FileEnt.Read: the count returned is the number of bytes copied", ret.Pos(),
 						"Read reports "+got.String()+" bytes but copied "+k.String())
 				}
 			}
@@ -533,77 +533,109 @@ func c18WalkChain(r *Run) {
 		r.Undecided("walk-chain", "FileHandle.Walk: walk result", fn.Pos(), "cannot find the slice of walked entries (make + append)")
 		return
 	}
-	ndel := fa.Lin(ansMake.Len)
-	// the new chain: a []*FileEnt MakeSlice other than ans
+	// the new chain: a []*FileEnt MakeSlice other than ans. The construction may sit in Walk or in a helper of the
+	// package handed ans and ndel (`h.walkedChain(ndel, ref, ans)`): the helper's parameters stand for them.
 	n := 0
-	derivesFromAns := func(v ssa.Value) (low *Lin, ok bool) {
-		if v == ans {
-			return linConst(0), true
-		}
-		if sl, isS := v.(*ssa.Slice); isS && sl.X == ans {
-			if sl.Low == nil {
+	var scan func(fn *ssa.Function, fa *FA, ans ssa.Value, ndel *Lin, depth int)
+	scan = func(fn *ssa.Function, fa *FA, ans ssa.Value, ndel *Lin, depth int) {
+		derivesFromAns := func(v ssa.Value) (low *Lin, ok bool) {
+			if v == ans {
 				return linConst(0), true
 			}
-			return fa.Lin(sl.Low), true
+			if sl, isS := v.(*ssa.Slice); isS && sl.X == ans {
+				if sl.Low == nil {
+					return linConst(0), true
+				}
+				return fa.Lin(sl.Low), true
+			}
+			return nil, false
 		}
-		return nil, false
-	}
-	eachInstr(fn, func(in ssa.Instruction) {
-		switch x := in.(type) {
-		case *ssa.UnOp:
-			// p = ans[j] flowing into the chain
-			if x.Op != token.MUL {
-				return
-			}
-			ia, ok := x.X.(*ssa.IndexAddr)
-			if !ok || ia.X != ans {
-				return
-			}
-			// only reads that feed the new chain (stored into a []*FileEnt element), not the qid loop
-			feeds := false
-			var walk func(v ssa.Value, d int)
-			walk = func(v ssa.Value, d int) {
-				if d > 3 {
+		eachInstr(fn, func(in ssa.Instruction) {
+			switch x := in.(type) {
+			case *ssa.UnOp:
+				// p = ans[j] flowing into the chain
+				if x.Op != token.MUL {
 					return
 				}
-				for _, rf := range referrers(v) {
-					switch y := rf.(type) {
-					case *ssa.Store:
-						if _, isIA := y.Addr.(*ssa.IndexAddr); isIA && y.Val == v {
-							feeds = true
+				ia, ok := x.X.(*ssa.IndexAddr)
+				if !ok || ia.X != ans {
+					return
+				}
+				// only reads that feed the new chain (stored into a []*FileEnt element), not the qid loop
+				feeds := false
+				var walk func(v ssa.Value, d int)
+				walk = func(v ssa.Value, d int) {
+					if d > 3 {
+						return
+					}
+					for _, rf := range referrers(v) {
+						switch y := rf.(type) {
+						case *ssa.Store:
+							if _, isIA := y.Addr.(*ssa.IndexAddr); isIA && y.Val == v {
+								feeds = true
+							}
+						case *ssa.Phi:
+							walk(y, d+1)
 						}
-					case *ssa.Phi:
-						walk(y, d+1)
 					}
 				}
+				walk(x, 0)
+				if !feeds {
+					return
+				}
+				n++
+				j := fa.Lin(ia.Index)
+				facts := fa.FactsAt(x, j, ndel)
+				r.Check(EntailsLE(facts, ndel, j) || fa.entailsPhiSplit(x, facts, ndel, j, 2), "walk-chain", "FileHandle.Walk: entries copied into the new chain are taken from ans[ndel:]", x.Pos(),
+					"an entry standing for a '..' step is placed into the new handle's chain: the handle's entry/parents do not match the walked path", factStrings(facts)...)
+			case *ssa.Call:
+				b, ok := x.Call.Value.(*ssa.Builtin)
+				if !ok || (b.Name() != "copy" && b.Name() != "append") {
+					return
+				}
+				if x == ans {
+					return
+				}
+				src := x.Call.Args[1]
+				low, isAns := derivesFromAns(src)
+				if !isAns {
+					return
+				}
+				n++
+				facts := fa.FactsAt(x, low, ndel)
+				r.Check(EntailsLE(facts, ndel, low), "walk-chain", "FileHandle.Walk: entries copied into the new chain are taken from ans[ndel:]", x.Pos(),
+					"the walked entries are copied into the new chain from the start of ans, including those that stand for '..' steps: the new handle refers to the wrong node", factStrings(facts)...)
 			}
-			walk(x, 0)
-			if !feeds {
-				return
-			}
-			n++
-			j := fa.Lin(ia.Index)
-			facts := fa.FactsAt(x, j, ndel)
-			r.Check(EntailsLE(facts, ndel, j) || fa.entailsPhiSplit(x, facts, ndel, j, 2), "walk-chain", "FileHandle.Walk: entries copied into the new chain are taken from ans[ndel:]", x.Pos(),
-				"an entry standing for a '..' step is placed into the new handle's chain: the handle's entry/parents do not match the walked path", factStrings(facts)...)
-		case *ssa.Call:
-			b, ok := x.Call.Value.(*ssa.Builtin)
-			if !ok || (b.Name() != "copy" && b.Name() != "append") {
-				return
-			}
-			if x == ans {
-				return
-			}
-			src := x.Call.Args[1]
-			low, isAns := derivesFromAns(src)
-			if !isAns {
-				return
-			}
-			n++
-			facts := fa.FactsAt(x, low, ndel)
-			r.Check(EntailsLE(facts, ndel, low), "walk-chain", "FileHandle.Walk: entries copied into the new chain are taken from ans[ndel:]", x.Pos(),
-				"the walked entries are copied into the new chain from the start of ans, including those that stand for '..' steps: the new handle refers to the wrong node", factStrings(facts)...)
+		})
+
+		if depth >= 1 {
+			return
 		}
-	})
+		eachInstr(fn, func(in ssa.Instruction) {
+			c, ok := in.(*ssa.Call)
+			if !ok {
+				return
+			}
+			g := staticCallee(&c.Call)
+			if g == nil || g.Blocks == nil || g.Pkg != fn.Pkg || g == fn {
+				return
+			}
+			ai, ni := -1, -1
+			for i, a := range c.Call.Args {
+				if a == ans {
+					ai = i
+				} else if _, _, isInt := intBits(a.Type()); isInt && fa.Lin(a).Equal(ndel) {
+					ni = i
+				}
+			}
+			if ai < 0 || ni < 0 || ai >= len(g.Params) || ni >= len(g.Params) {
+				return
+			}
+			r.SawFn(fnName(g))
+			gfa := p.FA(g)
+			scan(g, gfa, g.Params[ai], gfa.Lin(g.Params[ni]), depth+1)
+		})
+	}
+	scan(fn, fa, ans, fa.Lin(ansMake.Len), 0)
 	r.Floor("walk-chain", n, 1, "transfers from the walk result into the new handle's chain")
 }
